@@ -431,3 +431,67 @@ def fieldown(pid):
         res.floor("stores to start_sector / stream_len", n, ctx.table("floors").get("fieldown_sites", 0))
         return res
     return run
+
+
+def ctorvalues(pid):
+    """R-CTORVAL: the two constructors every stored entry starts from.  MS-CFB 2.6.3: an unallocated entry is all zeros
+    except for the three links, which are NOSTREAM - DirEntry::unallocated() is what R-BLANK has written over a
+    released slot, so its field values are the blank pattern.  DirEntry::new() builds what a creation stores: both
+    times from the one timestamp it is given, no links, no CLSID, no state bits, length 0."""
+    def run(ctx):
+        res = RuleResult("R-CTORVAL(%s)" % pid, "DirEntry::unallocated() is the blank pattern of MS-CFB 2.6.3 field for field; DirEntry::new() sets both times from its timestamp argument and everything else to the empty values")
+        want = {
+            "unallocated": {"name": r"^String::new\(\)$", "obj_type": r"^ObjType::Unallocated\(\)$", "left_sibling": r"^const:(\w+::)*NO_STREAM$", "right_sibling": r"^const:(\w+::)*NO_STREAM$", "child": r"^const:(\w+::)*NO_STREAM$",
+                            "clsid": r"nil\(\)$", "state_bits": r"^const:0$", "creation_time": r"^Timestamp::zero\(\)$", "modified_time": r"^Timestamp::zero\(\)$", "start_sector": r"^const:0$", "stream_len": r"^const:0$"},
+            "new": {"obj_type": r"^param:obj_type$", "left_sibling": r"^const:(\w+::)*NO_STREAM$", "right_sibling": r"^const:(\w+::)*NO_STREAM$", "child": r"^const:(\w+::)*NO_STREAM$", "clsid": r"nil\(\)$", "state_bits": r"^const:0$",
+                    "creation_time": r"^param:timestamp$", "modified_time": r"^param:timestamp$", "stream_len": r"^const:0$"},
+        }
+        n = 0
+        for nm, fields in want.items():
+            f = ctx.fx.fns.get(DIRENTRY + "::" + nm)
+            if f is None:
+                res.gone.append(nm)
+                continue
+            pr = Prov(f)
+            for bb, blk in enumerate(f.blocks):
+                if blk["cleanup"]:
+                    continue
+                for i, st in enumerate(blk["stmts"]):
+                    if st["s"] == "assign" and st["rv"]["r"] == "aggregate" and st["rv"].get("adt", "") == DIRENTRY:
+                        got = dict(zip(st["rv"].get("fields", []), [pr.operand(o) for o in st["rv"].get("ops", [])]))
+                        for fld, rx in fields.items():
+                            n += 1
+                            val = got.get(fld)
+                            if val is None:
+                                continue
+                            m = re.match(r"^var:(\w+)$", val)
+                            if re.search(rx, val):
+                                res.ok({"constructor": nm, "field": fld, "value": val[:50]})
+                            else:
+                                res.fail(Finding(res.rule, "R-CTORVAL/%s/%s" % (nm, fld), "DirEntry::%s() sets %s to %s: %s" % (nm, fld, val[:60], "an unallocated entry is not blank any more (every slot the library releases or pads a directory sector with carries this value)" if nm == "unallocated" else "a newly created object does not start from the empty values / the creation timestamp"), f, st["span"]))
+        res.floor("constructor fields", n, ctx.table("floors").get("ctorval_fields", 0))
+        return res
+    return run
+
+
+def setterpure(pid):
+    """R-SETVAL: a setter stores what it was given.  The closures the API-level setters hand to the write-through helper
+    assign the field from the caller's argument; a value that also depends on the field's previous content (|=, +=)
+    makes the stored word a function of the history, and `returned unchanged` fails from the second call on."""
+    def run(ctx):
+        res = RuleResult("R-SETVAL(%s)" % pid, "no closure passed to with_dir_entry_mut / set_entry_with_path from the API layer stores into a metadata field a value computed from that same field")
+        n = 0
+        for f in ctx.fx.fns.values():
+            if f.kind != "closure" or not f.path.startswith("CompoundFile"):
+                continue
+            pr = Prov(f)
+            for (node, fld, st) in _entry_field_stores(f, ("state_bits", "clsid", "creation_time", "modified_time")):
+                n += 1
+                val = pr._def((node[1], node[2], st), 0, ())
+                if re.search(r"param:(?!arg1\b)\w+\.%s\b|deref\(param:(?!arg1\b)\w+\)\.%s\b" % (fld, fld), val) or re.match(r"^(BitOr|BitAnd|BitXor|Add|Sub)\(", val):
+                    res.fail(Finding(res.rule, "R-SETVAL/%s/%s" % (f.path, fld), "the setter closure stores %s into %s: the new value depends on the old one, so what a lookup returns is not what was set" % (val[:70], fld), f, st["span"]))
+                else:
+                    res.ok({"closure": f.path, "field": fld, "value": val[:60]}, nontrivial=True)
+        res.floor("metadata stores in API closures", n, ctx.table("floors").get("setval_sites", 0))
+        return res
+    return run
